@@ -110,6 +110,41 @@ func basmSweep(thorough bool) []source {
 			out = append(out, source{"basm", "immediate-wider-than-register", basmProgram(rs, []string{"rset r0, " + v, "r2o r0, o0", "j _start"}, nil, []int{0}), nil, true})
 			out = append(out, source{"basm", "immediate-wider-than-register", basmProgram(rs, []string{"mov r0, " + v, "r2o r0, o0", "j _start"}, nil, []int{0}), nil, true})
 		}
+		// ROM data sections: code length × number of data cells around the powers of two (the ROM depth is
+		// inferred from code + data); one variable with k values and the `k:db` repetition form
+		for _, c := range []int{2, 3, 6, 7, 14, 15, 30, 36} {
+			for _, k := range []int{1, 2, 3, 4, 8, 16, 40} {
+				lines := []string{"rset r0, 1"} // the word must be at least 8 bits wide to hold data
+				for i := 0; i < c-2; i++ {
+					lines = append(lines, "inc r0")
+				}
+				lines = append(lines, "j _start")
+				vals := make([]string, k)
+				for i := range vals {
+					vals[i] = fmt.Sprintf("0x%02x", (i*7+1)&0x7f)
+				}
+				for _, decl := range []string{"tab db " + strings.Join(vals, ", "), fmt.Sprintf("big %d:db 0x7f", k)} {
+					src := basmProgram(rs, lines, nil, nil)
+					src = strings.Replace(src, "%meta cpdef p0 romcode: prog, ramsize:8", "%section consts .romdata\n\t"+decl+"\n%endsection\n\n%meta cpdef p0 romcode: prog, romdata: consts", 1)
+					out = append(out, source{"basm", "code-length×rom-data-cells", src, nil, false})
+				}
+			}
+		}
+		// the same with programs whose widest instruction is the jump (the word width then follows the ROM depth)
+		for _, c := range []int{30, 36, 60, 100} {
+			for _, k := range []int{2, 8, 40, 70, 130} {
+				var lines []string
+				for i := 0; i < c-1; i++ {
+					lines = append(lines, "inc r0")
+				}
+				lines = append(lines, "j _start")
+				for _, decl := range []string{fmt.Sprintf("big %d:db 0x7f", k), fmt.Sprintf("one db 0x01\n\tbig %d:db 0x7f", k)} {
+					src := basmProgram(rs, lines, nil, nil)
+					src = strings.Replace(src, "%meta cpdef p0 romcode: prog, ramsize:8", "%section consts .romdata\n\t"+decl+"\n%endsection\n\n%meta cpdef p0 romcode: prog, romdata: consts", 1)
+					out = append(out, source{"basm", "jump-widest×rom-data-cells", src, nil, false})
+				}
+			}
+		}
 		// register × length combined at the boundaries
 		for _, r := range []int{1, 2, 3, 4, 15, 16} {
 			for _, l := range []int{3, 4, 5, 8, 9} {
